@@ -2,6 +2,7 @@
   C03 — each segment starts at the VRAM address the document requests.
 -/
 import Props.Writer
+import Props.ImageSegment
 namespace Slinky.C03
 open Slinky W
 
@@ -96,5 +97,44 @@ theorem single_segment_start (cx : Ctx) (seg : Segment) (ls : List Line) (h : ad
     · rename_i noload hn
       injection h with h
       exact ⟨alloc, noload, ha, hn, h.symm⟩
+
+
+/-! ### in the linked image (the linker semantics `Slinkyv.Ld`) -/
+
+open Ld in
+/-- **C03, image clause for the allocatable part**: the output section `.<segment>` opens at
+the value of the address expression the header carries (`fixed_vram` literal, `fixed_symbol`,
+the followed segment's end symbol, the class start symbol — `header_address`), or, without
+one, at the location counter rounded up to the alignment `al ≥ 1` its contents require; it is
+recorded with exactly that address and the size `end − start`. -/
+theorem image_segment_start (objs : List InSec) (cx : Ctx) (seg : Segment) (secs : List Str)
+    (ls : List Line) (h : writeSegment cx seg secs false = .ok ls) (st : St) (ho : Outside st) (k : List Line) :
+    ∃ (start end_ al : Nat) (st' : St), st' = execK objs st ls k ∧ 1 ≤ al ∧ start ≤ end_ ∧
+      (∀ a, segAddr cx seg = some a → ∃ st₁ : St, st₁.dot = st.dot ∧ start = (operand st₁ a).getD st.dot) ∧
+      (segAddr cx seg = none → start = Ld.alignUp st.dot al) ∧
+      ((st'.dot = end_ ∧ ∃ lmaV, st'.secs = st.secs ++ [⟨c!"." ++ seg.name, start, end_ - start, lmaV, false, al⟩]) ∨
+       (end_ = start ∧ st'.dot = st.dot ∧ st'.secs = st.secs)) := by
+  obtain ⟨start, end_, al, new, st', name, addr, h0, hn, ha, h1, h2, h3, h4, _, _, _, _, h9⟩ := section_image objs cx seg secs false ls h st ho k
+  simp only [Bool.false_eq_true, if_false] at hn ha
+  subst hn ha
+  exact ⟨start, end_, al, st', h0, h1, h4, h2, h3, h9⟩
+
+open Ld in
+/-- **C03, image clause for the noload part**: `.<segment>.noload` opens at the location
+counter (which is where the allocatable part and its symbols left it) rounded up to the
+alignment of its contents — it follows the allocatable part. -/
+theorem image_noload_follows (objs : List InSec) (cx : Ctx) (seg : Segment) (secs : List Str)
+    (ls : List Line) (h : writeSegment cx seg secs true = .ok ls) (st : St) (ho : Outside st) (k : List Line) :
+    ∃ (start al : Nat), 1 ≤ al ∧ start = Ld.alignUp st.dot al ∧ st.dot ≤ start ∧
+      ∀ p ∈ (execK objs st ls k).placed, p ∉ st.placed → start ≤ p.addr := by
+  obtain ⟨start, end_, al, new, st', name, addr, h0, hn, ha, h1, _, h3, _, _, h8, h9, _, _⟩ := section_image objs cx seg secs true ls h st ho k
+  simp only [if_true] at ha
+  refine ⟨start, al, h1, h3 ha, ?_, ?_⟩
+  · rw [h3 ha]; exact le_alignUp _ _
+  · intro p hp hnp
+    rw [← h0, h8] at hp
+    rcases List.mem_append.1 hp with hp | hp
+    · exact absurd hp hnp
+    · exact (chainOk_mem _ _ _ _ h9 p hp).1
 
 end Slinky.C03
